@@ -137,7 +137,8 @@ class OtoCheck(object):
             else:
                 ops.append([side, name])
         init = self.gen_pairs(r, 'fwd') + self.gen_pairs(r, 'fwd')
-        return {'kind': 'oto', 'init': init, 'init_shape': r.choice(['none', 'dict', 'pairs', 'unique', 'unique-raw']), 'ops': ops}
+        return {'kind': 'oto', 'init': init, 'init_shape': r.choice(['none', 'dict', 'pairs', 'unique', 'unique-raw']), 'ops': ops,
+                'subclass': r.random() < 0.12}
 
     @staticmethod
     def m_set(D, k, v):
@@ -147,6 +148,21 @@ class OtoCheck(object):
 
     def run(self, h, stats=None):
         du = common.load('dictutils')
+        if h.get('subclass'):
+            # a user subclass with dict's __missing__ hook (a defaulting lookup): reading an absent key answers a
+            # default without storing anything - the two sides must stay exact inverses all the same
+            base = du
+
+            class _Defaulting(base.OneToOne):
+                def __missing__(self, key):
+                    return 'zz-missing-default'
+
+            class _Shim(object):
+                OneToOne = _Defaulting
+                ManyToMany = base.ManyToMany
+            du = _Shim
+            if stats is not None:
+                stats.count('oto_histories_on_a_defaulting_subclass')
         D = {}
         init = [(lf(k), lf(v)) for k, v in h.get('init', [])]
         try:
